@@ -42,12 +42,29 @@ def kf_match(v, case, entry):
         return False
     if "detail_regex_any" in m and not any(re.search(rx, v.get("detail") or "") for rx in m["detail_regex_any"]):
         return False
+    if "files_regex_any" in m:
+        texts = current_texts(case or {})
+        if not any(re.search(rx, t, re.I | re.S) for rx in m["files_regex_any"] for t in texts.values()):
+            return False
     if "loc_file_library" in m:
         lf = v.get("loc_file")
         libfiles = [f for lib, fs in (case or {}).get("libs", []) if lib == m["loc_file_library"] for f in fs]
         if lf not in libfiles:
             return False
     return True
+
+
+def current_texts(case):
+    """file name -> text after the case's edits (python re-implementation of the LSP splice)"""
+    docs = {n: Doc(t) for n, t in case.get("files", [])}
+    for e in case.get("edits", []):
+        if e["file"] not in docs:
+            docs[e["file"]] = Doc("")
+        docs[e["file"]].change(e.get("range"), e["text"])
+    return {n: d.text for n, d in docs.items()}
+
+
+_VLOCK = threading.Lock()
 
 
 class Findings:
@@ -73,7 +90,8 @@ class Findings:
                    "replay_cmd": "./check C03 --replay <this file>"}
             if replay_extra:
                 obj.update(replay_extra)
-            self.res.violation(what, obj, no_failing_input=no_failing_input)
+            with _VLOCK:
+                self.res.violation(what, obj, no_failing_input=no_failing_input)
 
     def finish(self):
         for fid, h in sorted(self.hits.items()):
@@ -85,6 +103,8 @@ def describe(v):
     c = v.get("class")
     if c == "panic":
         return "panic in %s: %s" % (v.get("where"), v.get("detail"))
+    if c == "abort":
+        return "the process aborted (not a catchable panic) in %s: %s" % (v.get("where"), v.get("detail"))
     if c == "hang":
         return "watchdog: %s did not return (%s)" % (v.get("where"), v.get("detail"))
     if c == "location":
@@ -112,6 +132,14 @@ def read_jsonl(path):
     return out
 
 
+def dump_case(hbin, sd, ncases, nsteps, kinds, cid):
+    rc, out = run([hbin, "dump", str(sd), str(ncases), str(nsteps), str(kinds), str(cid)], timeout=300)
+    try:
+        return json.loads(out) if rc == 0 else None
+    except ValueError:
+        return None
+
+
 def _limits():
     # backstop for runaway allocations of the implementation (the harness watchdog acts at 10 GB resident)
     import resource
@@ -121,7 +149,7 @@ def _limits():
         pass
 
 
-def run_harness(res, fnd, hbin, args, out, tag, timeout, rayon=None):
+def run_harness(res, fnd, hbin, args, out, tag, timeout, rayon=None, regen=None):
     env = env_base()
     if rayon:
         env["RAYON_NUM_THREADS"] = str(rayon)
@@ -146,6 +174,42 @@ def run_harness(res, fnd, hbin, args, out, tag, timeout, rayon=None):
         elif k == "harness_panic":
             res.violation("harness c03 (%s) panicked in its own code on case %s: %s" % (tag, v.get("id"), v.get("detail")),
                           {"kind": "harness", "detail": v.get("detail")}, no_failing_input=True)
+    if rc not in (0, 3, 124) and regen is not None:
+        # the process died (stack overflow / abort inside the implementation): find the case that was running
+        last_at = {}
+        done = set()
+        for v in recs:
+            if v.get("kind") == "at":
+                last_at[v.get("id")] = v
+            elif v.get("kind") == "case":
+                done.add(v.get("id"))
+        suspects = [a for i, a in last_at.items() if i not in done]
+        found = False
+        for a in suspects[:NTHREADS + 2]:
+            case = regen(a["id"])
+            if case is None:
+                continue
+            case = dict(case)
+            case["edits"] = case["edits"][:a.get("step") or 0]
+            one = os.path.join(os.path.dirname(out), "suspect.json")
+            json.dump([case], open(one, "w"), ensure_ascii=False)
+            try:
+                p2 = subprocess.run([hbin, "cases", one, out + ".suspect", os.path.join(os.path.dirname(out), "work_suspect"), "1", "60"],
+                                    env=env, stdout=subprocess.PIPE, stderr=subprocess.STDOUT, timeout=300, preexec_fn=_limits)
+                rc2, log2 = p2.returncode, p2.stdout.decode("utf-8", "replace")
+            except subprocess.TimeoutExpired:
+                rc2, log2 = 124, ""
+            if rc2 not in (0, 3):
+                found = True
+                why = [l for l in log2.split("\n") if "overflowed its stack" in l or "fatal runtime error" in l or "memory allocation" in l]
+                fnd.report("the process aborted (stack overflow / abort, not a catchable panic) in case %s" % case.get("id"), {"class": "abort", "where": a.get("phase"), "detail": "; ".join(why)[:300] or "process died with rc=%s" % rc2,
+                                                  "step": a.get("step"), "cursor": None, "state": lsp_state_tokens(case), "case": case, "loc_file": None})
+            else:
+                for v in read_jsonl(out + ".suspect"):
+                    if v.get("kind") == "violation":
+                        fnd.report(describe(v), v)
+        if found:
+            return summary, arena, recs
     if rc == 124:
         res.violation("harness c03 (%s) exceeded its time budget of %d s" % (tag, timeout),
                       {"kind": "harness", "log": log[-2000:]}, no_failing_input=True)
@@ -486,6 +550,8 @@ def lsp_case(binpath, case, wsroot, libs_std, rng_seed, max_cursors, counters, s
                         check_loc("related information", rel["location"]["uri"], rel["location"]["range"])
 
     def call(method, params):
+        if len(ls.log) > 2000:
+            del ls.log[:]          # the client library keeps every message; long sessions would grow without bound
         state["req"] = method
         counters["requests"] += 1
         resp, others = ls.call(method, params, timeout=90.0)
@@ -618,6 +684,11 @@ def lsp_case(binpath, case, wsroot, libs_std, rng_seed, max_cursors, counters, s
         ds = call("textDocument/documentSymbol", {"textDocument": td})
         symbols("textDocument/documentSymbol", ds, u)
         remember_symbols(name, ds)
+        # hover on every declaration of the file (the declaration formatter), at most 40
+        here = [p for p in old_positions if p[0] == name][-400:]
+        for (_n, l, c) in here[:40] if len(here) <= 40 else rnd.sample(here, 40):
+            state["cursor"] = [name, l, c]
+            call("textDocument/hover", {"textDocument": td, "position": {"line": l, "character": c}})
         for qy in ("", "a", "std"):
             symbols("workspace/symbol", call("workspace/symbol", {"query": qy}), u)
         semantic("textDocument/semanticTokens/full", call("textDocument/semanticTokens/full", {"textDocument": td}), dc, u)
@@ -777,42 +848,71 @@ def main(tier, replay=None):
             lsp_cases = [case]
         else:
             s, a, _ = run_harness(res, fnd, hbin, ["cases", path, os.path.join(d, "replay.out"), work, "1", "90"],
-                                  os.path.join(d, "replay.out"), "replay", 600)
+                                  os.path.join(d, "replay.out"), "replay", 600, regen=lambda _i: case)
             summaries["replay"] = s
             arenas += a
     else:
         corpus = os.path.join(VERIF, "corpus", "C03.json")
-        if os.path.exists(corpus):
+        corpus_cases = json.load(open(corpus)) if os.path.exists(corpus) else []
+        by_id = {c["id"]: c for c in corpus_cases}
+        # inputs that abort or hang the process (open findings) run in their own processes, beside the exploration
+        isolated = [c for c in corpus_cases if c.get("isolate")]
+        corpus = os.path.join(d, "corpus_normal.json")
+        json.dump([c for c in corpus_cases if not c.get("isolate")], open(corpus, "w"), ensure_ascii=False)
+        iso_fnd = []
+
+        def run_isolated():
+            for k, c in enumerate(isolated):
+                pth = os.path.join(d, "iso%d.json" % k)
+                json.dump([c], open(pth, "w"), ensure_ascii=False)
+                f2 = Findings(res)
+                iso_fnd.append(f2)
+                run_harness(res, f2, hbin, ["cases", pth, os.path.join(d, "iso%d.out" % k), os.path.join(d, "work_iso"), "1", "25"],
+                            os.path.join(d, "iso%d.out" % k), "corpus/isolated " + c["id"], 300, rayon=2, regen=lambda i: by_id.get(i))
+        iso_thread = threading.Thread(target=run_isolated)
+        iso_thread.start()
+        if corpus_cases:
             # twice: with a single analysis thread (lock-protocol defects such as F4 are deterministic then) and with the default pool
             s, a, _ = run_harness(res, fnd, hbin, ["cases", corpus, os.path.join(d, "corpus1.out"), work, "4", "90"],
-                                  os.path.join(d, "corpus1.out"), "corpus/1-thread-analysis", 900, rayon=1)
+                                  os.path.join(d, "corpus1.out"), "corpus/1-thread-analysis", 900, rayon=1, regen=lambda i: by_id.get(i))
             summaries["corpus_single_thread"] = s
             s, a, _ = run_harness(res, fnd, hbin, ["cases", corpus, os.path.join(d, "corpus.out"), work, str(NTHREADS), "90"],
-                                  os.path.join(d, "corpus.out"), "corpus", 900)
+                                  os.path.join(d, "corpus.out"), "corpus", 900, regen=lambda i: by_id.get(i))
             summaries["corpus"] = s
             arenas += a
         if tier == "thorough":
-            ncases, nsteps, nlsp, wd, tmo, budget, kinds = 1700, 12, 40, 300, 3400, 700, 1
+            ncases, nsteps, nlsp, wd, tmo, budget, kinds = 1700, 12, 30, 300, 3400, 600, 1
         else:
             ncases, nsteps, nlsp, wd, tmo, budget, kinds = 40, 9, 6, 150, 900, 140, 2
         lsp_path = os.path.join(d, "lsp_cases.json")
         s, a, _ = run_harness(res, fnd, hbin, ["gen", str(seed()), str(ncases), str(nsteps), os.path.join(d, "gen.out"), work,
                                                str(NTHREADS), str(wd), lsp_path, str(min(ncases, 400)), str(budget), str(kinds)],
-                              os.path.join(d, "gen.out"), "exploration", tmo, rayon=(2 if seed() % 2 else 4))
+                              os.path.join(d, "gen.out"), "exploration", tmo, rayon=(2 if seed() % 2 else 4),
+                              regen=lambda i: dump_case(hbin, seed(), ncases, nsteps, kinds, i))
         summaries["exploration"] = s
         arenas += a
         if os.path.exists(lsp_path):
             allc = json.load(open(lsp_path))
-            lsp_cases = [c for c in allc if c["std"] in ("full", "std") and not c["family"].startswith("kinds")][:nlsp]
+            lsp_cases = [c for c in allc if c["std"] in ("full", "std") and not c["family"].startswith(("kinds", "lits", "dups"))][:nlsp]
             # kind confusion through the server: the region batches (every name at every site of a region)
             regions = ("-s", "-d", "-c", "-l") if tier == "thorough" else ("-s", "-d")
             lsp_cases += [c for c in allc if c["family"] == "kinds-batch" and c["id"].endswith(regions)]
             # duplicate-file scenarios (related information positions) and, thorough only, the literal batches
             lsp_cases += [c for c in allc if c["family"] == "dups"][:(6 if tier == "thorough" else 2)]
             if tier == "thorough":
-                lsp_cases += [c for c in allc if c["family"] == "lits-batch"]
+                # the python driver is the bottleneck here: one region, every 3rd literal
+                for c in allc:
+                    if c["family"] == "lits-batch" and c["id"].endswith("-d"):
+                        c = dict(c)
+                        c["edits"] = c["edits"][seed() % 3::3]
+                        lsp_cases.append(c)
         # the open findings through the server as well: own library std is found through the project's own config
-        for c in json.load(open(corpus)) if os.path.exists(corpus) else []:
+        iso_thread.join()
+        for f2 in iso_fnd:
+            for fid, h in f2.hits.items():
+                h0 = fnd.hits.setdefault(fid, {"entry": h["entry"], "n": 0, "example": h["example"]})
+                h0["n"] += h["n"]
+        for c in corpus_cases:
             if c["id"] in ("F28-typed-into-standard", "F27-std_logic_1164-is-entity", "F5-lexer-hang", "F4-deadlock", "F3-stale-lint",
                            "dup-all-units-duplicated", "F55-signed-bitstring-len0"):
                 lsp_cases.append(c)
